@@ -242,26 +242,26 @@ func TestC20Table(t *testing.T) {
 	}
 }
 
-var segNames = []string{"a", "b", "ab", "ba", "a.b", "x.txt", "a.txt", "a.txt.txt", ".a", "abab", "aXbXb", "data", "d1", "d2", "src", "a[1]", "a1", "a?b", "a\\b", "[ab]", "a]"}
+var segNames = []string{"a", "b", "ab", "ba", "a.b", "x.txt", "a.txt", "a.txt.txt", ".a", "abab", "aXbXb", "data", "d1", "d2", "src", "a[1]", "a1", "a?b", "a\\b", "[ab]", "a]", "\u00e9", "\u00e9t\u00e9.txt", "\u0436\u0443\u04401.log", "\u5831\u544a.txt", "a \u00e9"}
 
 func genSegmentPattern(t *rapid.T, dirSegment bool) string {
 	for {
-		base := rapid.SampledFrom(segNames).Draw(t, "segbase")
+		base := []rune(rapid.SampledFrom(segNames).Draw(t, "segbase"))
 		switch rapid.IntRange(0, 6).Draw(t, "segform") {
 		case 0, 1:
-			return base
+			return string(base)
 		case 2:
 			if !dirSegment {
 				return "*"
 			}
 		case 3:
-			return "*" + base[len(base)/2:]
+			return "*" + string(base[len(base)/2:])
 		case 4:
-			return base[:(len(base)+1)/2] + "*"
+			return string(base[:(len(base)+1)/2]) + "*"
 		case 5:
-			return base[:1] + "*" + base[len(base)-1:]
+			return string(base[:1]) + "*" + string(base[len(base)-1:])
 		default:
-			return "*" + base[len(base)-1:] + "*"
+			return "*" + string(base[len(base)-1:]) + "*"
 		}
 	}
 }
@@ -269,7 +269,7 @@ func genSegmentPattern(t *rapid.T, dirSegment bool) string {
 func TestC20Trees(t *testing.T) {
 	seedNote(t)
 	StartWatchdog("C20", 60*time.Second)
-	st := NewStats("C20", "trees", "generated directory trees of depth <= 3 (files and directories with equal names on different levels, dot files, repeated substrings, names with [ ] ? and backslash, symbolic links to directories and files) x relative and absolute patterns with stars in directory and file segments (star-only directory segments and ./.. segments excluded, as the property says); oracle: segment-by-segment walk with the reference glob; non-trivial = a wildcard directory segment, or a star followed by text occurring more than once in a candidate name; distinct by (tree, pattern)")
+	st := NewStats("C20", "trees", "generated directory trees of depth <= 3 (files and directories with equal names on different levels, dot files, repeated substrings, names with [ ] ? and backslash, non-ASCII names (accented, Cyrillic, CJK), symbolic links to directories and files) x relative and absolute patterns with stars in directory and file segments (star-only directory segments and ./.. segments excluded, as the property says); oracle: segment-by-segment walk with the reference glob; non-trivial = a wildcard directory segment, or a star followed by text occurring more than once in a candidate name; distinct by (tree, pattern)")
 	defer st.Write()
 	rapid.Check(t, func(t *rapid.T) {
 		var entries []string
@@ -342,8 +342,8 @@ func TestC20Trees(t *testing.T) {
 			// the pattern goes through a link to a directory, named literally or by a
 			// pattern with a star
 			l := rapid.SampledFrom(dirLinks).Draw(t, "vialink")
-			if rapid.IntRange(0, 2).Draw(t, "linkstar") == 0 && len(l) > 1 {
-				l = l[:1] + "*" + l[len(l)-1:]
+			if lr := []rune(l); rapid.IntRange(0, 2).Draw(t, "linkstar") == 0 && len(lr) > 1 {
+				l = string(lr[:1]) + "*" + string(lr[len(lr)-1:])
 			}
 			segs = append([]string{l}, segs...)
 			st.Count("pattern_through_a_link_to_a_directory")
